@@ -335,8 +335,8 @@ func main() {
 	r.Set("skeletons", len(skels))
 	np := len(geomgen.FinitePatterns)
 	// pattern indices of the alternating-neighbour family: -0, 5e-324, 0.1, 1e21,
-	// -1.5, 100, 0 in the quick tier, all patterns in the thorough tier
-	altPatterns := []int{0, 1, 3, 5, 13, 17, 18}
+	// -1.5, 100, 0 and +-MaxFloat64 in the quick tier, all patterns in the thorough tier
+	altPatterns := []int{0, 1, 3, 5, 9, 10, 13, 17, 18}
 	if tier == "thorough" {
 		altPatterns = nil
 		for i := range geomgen.FinitePatterns {
